@@ -1247,6 +1247,105 @@ func staleJobs(o *hx.Opts, quick bool) []*timedJob {
 	return out
 }
 
+// ---------- the UDP server answers only a re-sent datagram ----------
+
+// runResend: warm ordinary exchanges (answered at once, no TC), then one query
+// whose first `ignored` datagrams get no answer; the next datagram (a re-send
+// of the transport, one per second) is answered with flag byte b2 under the id
+// that datagram carries. TCP answers at once with a reply derived from the query.
+func runResend(id string, warm []timedQ, ignored int, q timedQ, b2 int) (*sessResult, error) {
+	s, err := newSession(true)
+	if err != nil {
+		return nil, err
+	}
+	tw := &timedWorld{s: s, seenID: map[int]bool{}}
+	defer s.close()
+	var mu sync.Mutex
+	armed, count := false, 0
+	var dgrams []string
+	s.wg.Add(2)
+	go tw.serveTCP()
+	go func() {
+		defer s.wg.Done()
+		buf := make([]byte, 65536)
+		for {
+			n, addr, err := s.uc.ReadFromUDP(buf)
+			if err != nil {
+				return
+			}
+			if n < 12 {
+				continue
+			}
+			d := append([]byte(nil), buf[:n]...)
+			mu.Lock()
+			flags, answer := 0x80, true
+			if armed {
+				count++
+				if count <= ignored+1 {
+					dgrams = append(dgrams, hx.Tuple(hx.Ni(wireID(d)), hx.N(hx.Sum(d))))
+				}
+				flags, answer = b2, count > ignored
+			}
+			mu.Unlock()
+			if answer {
+				s.uc.WriteToUDP(rawMsg(wireID(d), flags, 0x80, 0, d[12:]), addr)
+			}
+		}
+	}()
+	u, err := upstream.NewUpstream(fmt.Sprintf("udp://127.0.0.1:%d", s.port), upstream.Opt{})
+	if err != nil {
+		return nil, err
+	}
+	defer u.Close()
+	for _, wq := range warm {
+		exchangeOres(u, wq.bytes(), callTimeout())
+	}
+	mu.Lock()
+	armed = true
+	mu.Unlock()
+	res, desc := exchangeOres(u, q.bytes(), time.Duration(ignored)*time.Second+blockedTimeout)
+	mu.Lock()
+	got := append([]string(nil), dgrams...)
+	mu.Unlock()
+	return &sessResult{kind: "resend", c: hx.Case{
+		ID:  id,
+		Coq: hx.App("CResend", hx.Ni(len(warm)), hx.Ni(ignored), q.coq(), hx.Ni(b2), hx.List(got), res),
+		Desc: map[string]any{"kind": "resend", "earlier_exchanges": len(warm), "datagrams_ignored": ignored, "caller_id": q.cid,
+			"udp_tc": b2&2 != 0, "udp_byte2": b2, "datagrams_seen(id,sum)": got, "result": desc},
+		FKey: "resend",
+	}}, nil
+}
+
+func resendJobs(o *hx.Opts, quick bool) []*timedJob {
+	var out []*timedJob
+	n := 6
+	if !quick {
+		n = 24
+	}
+	for i := 0; i < n; i++ {
+		id := fmt.Sprintf("resend:%d", i)
+		if !o.Want(id) {
+			continue
+		}
+		r := hx.NewRNG(o.Seed, id)
+		var warm []timedQ
+		for k := 0; k < i%3; k++ {
+			warm = append(warm, timedQ{cid: r.Range(4, 65535), qn: 5, qseed: r.U64() % 100000})
+		}
+		q := timedQ{cid: r.Range(4, 65535), qn: hx.Pick(r, []int{5, 17, 30}), qseed: r.U64() % 100000}
+		b2 := r.Intn(256) &^ 2
+		if i%2 == 0 {
+			b2 |= 2
+		}
+		ignored := 1
+		if i%6 == 5 {
+			ignored = 2
+		}
+		out = append(out, &timedJob{id: id, run: func() (*sessResult, error) { return runResend(id, warm, ignored, q, b2) }})
+	}
+	return out
+}
+
 // ---------- generators ----------
 
 var udpExtra = []int{0, 0, 1, 10, 60, 300}
@@ -1429,6 +1528,7 @@ func main() {
 
 	// (d) the cases that need real time run in the background of everything else
 	tjobs := append(timedJobs(o, quick), staleJobs(o, quick)...)
+	tjobs = append(tjobs, resendJobs(o, quick)...)
 	var twg sync.WaitGroup
 	for _, j := range tjobs {
 		twg.Add(1)
